@@ -11,6 +11,7 @@ package hls
 import (
 	"bytes"
 	"fmt"
+	"math"
 
 	"github.com/q191201771/naza/pkg/nazaerrors"
 
@@ -369,7 +370,7 @@ func (m *Muxer) writeRecordPlaylist() {
 	// 找出整个直播流从开始到结束最大的分片时长
 	currFrag := m.getClosedFrag()
 	if currFrag.duration > m.recordMaxFragDuration {
-		m.recordMaxFragDuration = currFrag.duration + 0.5
+		m.recordMaxFragDuration = currFrag.duration
 	}
 
 	fragLines := fmt.Sprintf("#EXTINF:%.3f,\n%s\n", currFrag.duration, currFrag.filename)
@@ -379,7 +380,7 @@ func (m *Muxer) writeRecordPlaylist() {
 		// m3u8文件已经存在
 
 		content = bytes.TrimSuffix(content, []byte("#EXT-X-ENDLIST\n"))
-		content, err = updateTargetDurationInM3u8(content, int(m.recordMaxFragDuration))
+		content, err = updateTargetDurationInM3u8(content, calcTargetDuration(m.recordMaxFragDuration))
 		if err != nil {
 			Log.Errorf("[%s] update target duration failed. err=%+v", m.UniqueKey, err)
 			return
@@ -396,7 +397,7 @@ func (m *Muxer) writeRecordPlaylist() {
 		var buf bytes.Buffer
 		buf.WriteString("#EXTM3U\n")
 		buf.WriteString("#EXT-X-VERSION:3\n")
-		buf.WriteString(fmt.Sprintf("#EXT-X-TARGETDURATION:%d\n", int(m.recordMaxFragDuration)))
+		buf.WriteString(fmt.Sprintf("#EXT-X-TARGETDURATION:%d\n", calcTargetDuration(m.recordMaxFragDuration)))
 		buf.WriteString(fmt.Sprintf("#EXT-X-MEDIA-SEQUENCE:%d\n\n", 0))
 
 		if currFrag.discont {
@@ -419,7 +420,7 @@ func (m *Muxer) writePlaylist(isLast bool) {
 	maxFrag := float64(m.config.FragmentDurationMs) / 1000
 	m.iterateFragsInPlaylist(func(frag *fragmentInfo) {
 		if frag.duration > maxFrag {
-			maxFrag = frag.duration + 0.5
+			maxFrag = frag.duration
 		}
 	})
 
@@ -428,7 +429,7 @@ func (m *Muxer) writePlaylist(isLast bool) {
 	buf.WriteString("#EXTM3U\n")
 	buf.WriteString("#EXT-X-VERSION:3\n")
 	buf.WriteString("#EXT-X-ALLOW-CACHE:NO\n")
-	buf.WriteString(fmt.Sprintf("#EXT-X-TARGETDURATION:%d\n", int(maxFrag)))
+	buf.WriteString(fmt.Sprintf("#EXT-X-TARGETDURATION:%d\n", calcTargetDuration(maxFrag)))
 	buf.WriteString(fmt.Sprintf("#EXT-X-MEDIA-SEQUENCE:%d\n\n", m.extXMediaSeq()))
 
 	m.iterateFragsInPlaylist(func(frag *fragmentInfo) {
@@ -446,6 +447,16 @@ func (m *Muxer) writePlaylist(isLast bool) {
 	if err := writeM3u8File(buf.Bytes(), m.playlistFilename, m.playlistFilenameBak); err != nil {
 		Log.Errorf("[%s] write live m3u8 file error. err=%+v", m.UniqueKey, err)
 	}
+}
+
+// calcTargetDuration
+//
+// EXT-X-TARGETDURATION must not be smaller than any listed EXTINF duration rounded to the nearest integer (RFC 8216 4.3.3.1).
+// Durations are listed with millisecond precision ("%.3f"), so round to milliseconds first, then to seconds.
+//
+// @param maxDuration: the longest duration that is (or may be) listed, in seconds
+func calcTargetDuration(maxDuration float64) int {
+	return (int(math.Round(maxDuration*1000)) + 500) / 1000
 }
 
 func (m *Muxer) ensureDir() {
